@@ -385,9 +385,6 @@ def canon(t):
                     return ("unary", "not", c_) if x[1][0] == "is not" else c_
             if len(other_) == 1 and _never_none(other_[0]):
                 return ("const", x[1][0] == "is not")
-        if k == "sub" and x[2][0] == "const" and isinstance(x[2][1], str) and x[1][0] == "call" and x[1][1][0] == "attr" \
-                and x[1][1][2] == "groupdict" and not x[1][2] and not x[1][3]:
-            return ("call", ("attr", x[1][1][1], "group"), (x[2],), ())          # m.groupdict()["k"] is m.group("k")
         if k == "idx" and isinstance(x[2], int) and x[1][0] == "call" and x[1][1][0] == "attr" and x[1][1][2] == "group" \
                 and len(x[1][2]) > 1 and x[2] < len(x[1][2]) and not x[1][3]:
             return ("call", x[1][1], (x[1][2][x[2]],), ())                      # m.group("a", "b")[1] is m.group("b")
